@@ -264,6 +264,7 @@ def plan(tier, seed):
     for lo in range(0, na, 60):
         shards.append(("A", lo, min(na, lo + 60)))
     shards.append(("P",))
+    shards.append(("OPF",))
     nf = len(fake_root_compounds())
     for lo in range(0, nf, 100):
         shards.append(("F", lo, min(nf, lo + 100)))
@@ -311,6 +312,8 @@ def run_shard(shard, acc):
                 texts = list(spell.spellings(spell.query(q, o), 1, True, blanks=spell.BLANKS))
             for text in texts:
                 _eval(tag, q, text, acc)
+    elif shard[0] == "OPF":
+        _operator_named_functions(acc)
     elif shard[0] == "P":
         o = spell.Opts(full_strings=False)
         for q in prim_constructs():
@@ -430,6 +433,10 @@ def _alias(tag, alias, std, acc, record=True):
     import jsonpath
     from jsonpath import JSONPathError
 
+    if tag.startswith("opfunc:"):
+        _operator_named_functions(acc, record=False)
+        return
+
     if tag.startswith("rejected:"):
         # the standard spelling is refused at compile time (RFC 9535 typing rules): the alias is the same query
         outcome = []
@@ -475,6 +482,44 @@ def _alias(tag, alias, std, acc, record=True):
         if bad:
             acc.violation("A", bad[0], {"tag": tag, "alias": alias, "standard": std, "doc": doc}, expected=bad[1], observed=bad[2])
             return
+
+
+def _operator_named_functions(acc, record=True):
+    """not( / and( / or( / in( / contains( are operators - unless the environment has a function extension of that name,
+    which then is a function call as before (docs/advanced.md: function extensions are registered by name)."""
+    import jsonpath
+    from jsonpath import JSONPathError
+    from jsonpath.function_extensions import ExpressionType, FilterFunction
+
+    class Has(FilterFunction):
+        arg_types = [ExpressionType.VALUE, ExpressionType.VALUE]
+        return_type = ExpressionType.LOGICAL
+
+        def __call__(self, a, b):
+            return isinstance(a, str) and isinstance(b, str) and b in a
+
+    doc = [{"a": "xy"}, {"a": "z"}, {"a": 1}]
+    for name in ("contains", "in", "not", "and", "or"):
+        env = jsonpath.JSONPathEnvironment()
+        env.function_extensions[name] = Has()
+        text = "$[?%s(@.a, 'x')]" % name
+        try:
+            got = env.findall(text, doc)
+        except JSONPathError as e:
+            got = "%s: %s" % (type(e).__name__, e)
+        except Exception as e:  # noqa: BLE001
+            got = "%s: %s" % (type(e).__name__, e)
+        if record:
+            acc.case("A", ("opfunc", name), outcome=True, nontrivial=True)
+            acc.count("A.opfunc.some")
+        if got != [{"a": "xy"}]:
+            acc.violation("A", "registered-function-shadowed", {"tag": "opfunc:" + name, "alias": text, "standard": text},
+                          expected=[{"a": "xy"}], observed=got)
+    # and without such a function the same words are operators (default environment)
+    for text, std in (("$[?not(@.a == 1)]", "$[?!(@.a == 1)]"), ("$[?(@.a)and(@.a)]", "$[?(@.a)&&(@.a)]")):
+        a, b = jsonpath.findall(text, doc), jsonpath.findall(std, doc)
+        if a != b:
+            acc.violation("A", "alias-differs", {"tag": "opfunc:word", "alias": text, "standard": std}, expected=b, observed=a)
 
 
 def REQUIRE(tier):
